@@ -2,6 +2,7 @@ import Srtla.Model.Conn
 import Srtla.Lemmas.Log
 import Srtla.Lemmas.Conn
 import Srtla.Lemmas.TrackerTie
+import Srtla.Lemmas.SysDir
 /-!
 # C05 — a NAK is charged once, and only to a link that carried the packet
 
@@ -824,5 +825,244 @@ example :
     (@Srtla.Sys.handleSrtPacket Int Select.fixScalar s pkt 5000).1.trk.get 9 10001 = none ∧
     (@Srtla.Sys.handleSrtPacket Int Select.fixScalar s pkt 5000).1.lastSelected = some 0 := by
   decide +kernel
+
+/-! ## Round 3: a whole NAK datagram at shell level (`Sys.step`, `uplink` event of type 0x8003)
+
+`Charge trk now n cs cs'` — what ONE occurrence of the NAKed number `n` does to the list of link cores;
+`ChargeChain` — a NAK list, occurrence by occurrence (duplicates included);
+`C05_nak_list_charge_once` — the NAK loop of `process_connection_events` is such a chain, from any list of
+cores that satisfies the shell invariant (`LogInv`, window ≥ 1000: `SysInv` of `Props/SysLevel.lean`);
+`C05_sys_charge_once` — the `uplink` event of `Sys.step` carrying a NAK datagram IS that loop on the link
+cores (the arrival link's `last_received` stamped first), and touches nothing else. -/
+
+/-- What ONE occurrence of the NAKed number `n` does to the link cores `cs → cs'`: nothing (unknown or repeated
+number, or the remembered carrier no longer holds it), or EXACTLY ONE link `j` is replaced — every other link
+is record-equal — and `j` held the number, is charged exactly one loss count, one window decrement of 100
+floored at 1000, one in-flight slot, loses that number from its log; and if the ring remembers a present
+carrier for `n` (same number, at most 5000 ms old: `Tracker.get`), `j` IS that carrier. -/
+inductive Charge (trk : Tracker) (now n : Nat) (cs cs' : Links) : Prop
+  | none (h : cs' = cs)
+  | one (j : Nat) (c : Conn) (hj : cs[j]? = some c) (hheld : toI32 n ∈ c.keys)
+      (hcs : cs' = updateAt cs j (fun _ => (c.nak (toI32 n) now).1))
+      (hcount : (c.nak (toI32 n) now).1.cong.nakCount = satAddI32 c.cong.nakCount 1)
+      (hwin : (c.nak (toI32 n) now).1.window = max (c.window - 100) 1000)
+      (hinf : (c.nak (toI32 n) now).1.inFlight = c.inFlight - 1)
+      (hkeys : (c.nak (toI32 n) now).1.keys = c.keys.filter (· != toI32 n))
+      (htrk : ∀ cid pos, trk.get n now = some cid → cs.findIdx? (·.connId == cid) = some pos → j = pos)
+
+/-- A NAK list, one `Charge` per occurrence, in list order. -/
+inductive ChargeChain (trk : Tracker) (now : Nat) : List Nat → Links → Links → Prop
+  | nil (cs : Links) : ChargeChain trk now [] cs cs
+  | cons {n : Nat} {rest : List Nat} {cs mid cs' : Links} :
+      Charge trk now n cs mid → ChargeChain trk now rest mid cs' → ChargeChain trk now (n :: rest) cs cs'
+
+/-- One `attribute_nak` from an invariant core list is a `Charge`, and keeps the invariant. -/
+theorem charge_attributeNak (cs : Links) (trk : Tracker) (n now : Nat)
+    (h : ∀ c ∈ cs, LogInv c ∧ 1000 ≤ c.window) :
+    Charge trk now n cs (attributeNak cs trk n now).1 ∧
+    ∀ c ∈ (attributeNak cs trk n now).1, LogInv c ∧ 1000 ≤ c.window := by
+  rcases C05_at_most_one cs trk n now with ⟨-, h2⟩ | ⟨j, c, h1, hc, hm, h4⟩
+  · exact ⟨.none h2, by rw [h2]; exact h⟩
+  · obtain ⟨hi, hw⟩ := h c (List.mem_of_getElem? hc)
+    obtain ⟨-, e2, e3, -, e5, e6⟩ := C05_charge_exact c (toI32 n) now hm hi hw
+    refine ⟨.one j c hc hm h4 e2 e3 e6 e5 ?_, ?_⟩
+    · intro cid pos hget hpos
+      rcases C05_tracker_exclusive cs trk n now cid pos hget hpos with e | e
+      · rw [h1] at e; cases e
+      · rw [h1] at e; exact Option.some.inj e
+    · intro d hd
+      rw [h4] at hd
+      unfold updateAt at hd
+      rw [List.mem_mapIdx] at hd
+      obtain ⟨k, hk, rfl⟩ := hd
+      split
+      · exact ⟨nak_inv c _ now hi, by rw [e3]; omega⟩
+      · exact h _ (List.getElem_mem hk)
+
+/-- **The NAK loop charges once per occurrence** (core level): from any invariant list of link cores, the loop
+`for n in naks { attribute_nak(n) }` of `process_connection_events` is a `ChargeChain` — for every occurrence of
+every listed number at most one link changes, it is a holder of that number, the change is exactly the charge,
+and while the ring remembers a present carrier it is that carrier. -/
+theorem C05_nak_list_charge_once (trk : Tracker) (now : Nat) (naks : List Nat) (cs : Links)
+    (h : ∀ c ∈ cs, LogInv c ∧ 1000 ≤ c.window) :
+    ChargeChain trk now naks cs (naks.foldl (fun cs n => (attributeNak cs trk n now).1) cs) := by
+  induction naks generalizing cs with
+  | nil => exact .nil cs
+  | cons n rest ih =>
+    obtain ⟨h1, h2⟩ := charge_attributeNak cs trk n now h
+    exact .cons h1 (ih _ h2)
+
+section sysNak
+open Srtla.Sys Srtla.Link
+variable {F : Type} [Scalar F]
+
+omit [Scalar F] in
+theorem cores_withCores (ls : List (FLink F)) (cs : Links) (h : cs.length = ls.length) :
+    cores (withCores ls cs) = cs := by
+  unfold cores withCores
+  induction ls generalizing cs with
+  | nil => cases cs with
+    | nil => rfl
+    | cons c cs => simp at h
+  | cons l rest ih =>
+    cases cs with
+    | nil => simp at h
+    | cons c cs =>
+      simp only [List.zip_cons_cons, List.map_cons]
+      rw [ih cs (by simpa using h)]
+
+theorem foldl_attributeNak_length (trk : Tracker) (now : Nat) (naks : List Nat) (cs : Links) :
+    (naks.foldl (fun cs n => (attributeNak cs trk n now).1) cs).length = cs.length := by
+  induction naks generalizing cs with
+  | nil => rfl
+  | cons n rest ih =>
+    simp only [List.foldl_cons]
+    rw [ih]
+    exact (SysDir.pw_attributeNak (now := now) (classic := false) (A := fun _ => True) trivial cs trk n).length
+
+/-- **C05 at shell level**: an `uplink` event of `Sys.step` whose datagram is an SRT NAK (type 0x8003) arriving
+on a known link (`idx`, record `l`), in a state that satisfies the shell invariant (`LogInv` and window ≥ 1000 on
+every link — `SysInv` holds along every run from start-up: `Props/SysLevel.lean`).  With `naks` the list the
+datagram decodes to (singles and expanded ranges, duplicates included):
+
+* the link CORES after the event are reached from the cores before it (the arrival link's `last_received`
+  stamped, nothing else) by a `ChargeChain` over `naks` with the shell's own ring `s.trk` at the event's clock —
+  so for every occurrence of every NAKed number at most one link's `(nak_count, window, in_flight)` changes, by
+  exactly `(+1 saturating, max(w − 100, 1000), − 1)`, it is a link whose log held the number, and if the ring
+  remembers a present carrier (≤ 5000 ms, not displaced) it is that link;
+* the ring itself is unchanged;
+* every link's record outside its core is what it was (the arrival link additionally stamped). -/
+theorem C05_sys_charge_once (s : Sys F) (now cid : Nat) (data : Sys.Bytes) (idx : Nat) (l : FLink F)
+    (hinv : ∀ l ∈ s.links, LogInv l.core ∧ 1000 ≤ l.core.window)
+    (hpt : Codec.getPacketTypeS data = some 0x8003)
+    (hidx : s.links.findIdx? (·.core.connId == cid) = some idx) (hl : s.links[idx]? = some l) :
+    ChargeChain s.trk now (Codec.unChk [] (Codec.parseSrtNak data))
+      (cores (setAt s.links idx (Uplink.stamp l now)))
+      (cores (step s (.uplink now cid data)).1.links) ∧
+    (step s (.uplink now cid data)).1.trk = s.trk ∧
+    (step s (.uplink now cid data)).1.links =
+      withCores (setAt s.links idx (Uplink.stamp l now)) (cores (step s (.uplink now cid data)).1.links) := by
+  have hne : data ≠ [] := by intro h; subst h; simp [Codec.getPacketTypeS] at hpt
+  obtain ⟨-, -, hsacks, hacks, hnaks, -⟩ := Uplink.incoming_spec l idx s.reg s.clientKnown data now 0x8003 hpt
+  have harr : Uplink.arrival l idx s.reg s.clientKnown data now = Uplink.stamp l now := by
+    rcases Uplink.arrival_cases l idx s.reg s.clientKnown data now _ hpt with
+      ⟨h, -⟩ | ⟨h, -⟩ | ⟨h, -⟩ | ⟨h, -⟩ | ⟨h, -⟩ | ⟨-, -, -, -, -, h⟩
+    · simp at h
+    · simp at h
+    · simp at h
+    · simp at h
+    · simp at h
+    · exact h
+  have hstep : (step s (.uplink now cid data)).1 =
+      { s with links := withCores (setAt s.links idx (Uplink.stamp l now))
+                  ((Codec.unChk [] (Codec.parseSrtNak data)).foldl (fun cs n => (attributeNak cs s.trk n now).1)
+                    (cores (setAt s.links idx (Uplink.stamp l now)))),
+               reg := (Uplink.pupSpec l idx s.reg s.clientKnown data now).2.1 } := by
+    show (handleUplinkPacket s cid data now).1 = _
+    rw [Uplink.handleUplinkPacket_eq s cid data now idx l hne hidx hl]
+    dsimp only
+    rw [harr]
+    unfold processConnectionEvents
+    dsimp only
+    rw [hacks, hsacks, hnaks]
+    simp
+  have hlen : ((Codec.unChk [] (Codec.parseSrtNak data)).foldl (fun cs n => (attributeNak cs s.trk n now).1)
+      (cores (setAt s.links idx (Uplink.stamp l now)))).length = (setAt s.links idx (Uplink.stamp l now)).length := by
+    rw [foldl_attributeNak_length]
+    simp [cores]
+  have hcores : cores (step s (.uplink now cid data)).1.links =
+      (Codec.unChk [] (Codec.parseSrtNak data)).foldl (fun cs n => (attributeNak cs s.trk n now).1)
+        (cores (setAt s.links idx (Uplink.stamp l now))) := by
+    rw [hstep]
+    exact cores_withCores _ _ hlen
+  refine ⟨?_, by rw [hstep], ?_⟩
+  · rw [hcores]
+    apply C05_nak_list_charge_once
+    intro c hc
+    unfold cores at hc
+    obtain ⟨x, hx, rfl⟩ := List.mem_map.1 hc
+    unfold setAt at hx
+    rw [List.mem_mapIdx] at hx
+    obtain ⟨k, hk, rfl⟩ := hx
+    split
+    · obtain ⟨a, b⟩ := hinv l (List.mem_of_getElem? hl)
+      exact ⟨SysInv.logInv_congr a rfl rfl rfl, b⟩
+    · exact hinv _ (List.getElem_mem hk)
+  · rw [hcores]
+    rw [hstep]
+
+/-- A one-number NAK list is one `Charge`. -/
+theorem ChargeChain.single {trk : Tracker} {now n : Nat} {cs cs' : Links} (h : ChargeChain trk now [n] cs cs') :
+    Charge trk now n cs cs' := by
+  cases h with
+  | cons h1 h2 => cases h2; exact h1
+
+/-- **Along any run**: `C05_sys_charge_once` in every state a run of the shell reaches from an invariant state
+(`SysInv` of `Props/SysLevel.lean`, same literal body; holds of the initial state) — the invariant hypothesis is
+discharged by the run. -/
+theorem C05_sys_charge_once_run (s : Sys F) (pre : List Ev)
+    (h : ∀ l ∈ s.links, LogInv l.core ∧ 1000 ≤ l.core.window ∧ l.core.window ≤ 60000 ∧ 0 ≤ l.core.inFlight ∧
+      ∀ it ∈ l.queue, ∀ sq, it.2.1 = some sq → sq < 2147483648)
+    (now cid : Nat) (data : Sys.Bytes) (idx : Nat) (l : FLink F)
+    (hpt : Codec.getPacketTypeS data = some 0x8003)
+    (hidx : (run s pre).1.links.findIdx? (·.core.connId == cid) = some idx)
+    (hl : (run s pre).1.links[idx]? = some l) :
+    ChargeChain (run s pre).1.trk now (Codec.unChk [] (Codec.parseSrtNak data))
+      (cores (setAt (run s pre).1.links idx (Uplink.stamp l now)))
+      (cores (run s (pre ++ [.uplink now cid data])).1.links) ∧
+    (run s (pre ++ [.uplink now cid data])).1.trk = (run s pre).1.trk := by
+  have h0 : SysInv.All SysInv.LinkInv s.links := by
+    intro l hl
+    obtain ⟨a, b, c, d, f⟩ := h l hl
+    exact ⟨a, b, c, d, f⟩
+  have hinv : ∀ l ∈ (run s pre).1.links, LogInv l.core ∧ 1000 ≤ l.core.window := fun l hl =>
+    ⟨(SysDir.linkInv_run s pre h0 l hl).log, (SysDir.linkInv_run s pre h0 l hl).wlo⟩
+  have hs : (run s (pre ++ [.uplink now cid data])).1 = (step (run s pre).1 (.uplink now cid data)).1 := by
+    rw [SysDir.run_append]; rfl
+  rw [hs]
+  obtain ⟨a, b, -⟩ := C05_sys_charge_once (run s pre).1 now cid data idx l hinv hpt hidx hl
+  exact ⟨a, b⟩
+
+end sysNak
+
+/-- Non-vacuity of `C05_sys_charge_once`: two links, both hold 7 (link 1 a probe copy), link 0 also 5; the ring
+remembers conn id 22 (link 1) for 7.  The NAK datagram lists 5, 7, 7: 5 charges link 0 (fallback scan, window
+1050 → 1000 = the floor, not 950), the first 7 charges link 1 (the remembered carrier, NOT link 0 which also
+holds it), the repeated 7 charges nobody. -/
+example :
+    let s : Srtla.Sys.Sys Int :=
+      { links := [{ exSysLink with core := { exA with connected := true } },
+                  { exSysLink with core := { exB with connected := true } }],
+        reg := Reg.Reg.new [] [], trk := exTrk }
+    let nak : Srtla.Sys.Bytes := [0x80, 0x03, 0, 0, 0, 0, 0, 5, 0, 0, 0, 7, 0, 0, 0, 7]
+    Codec.getPacketTypeS nak = some 0x8003 ∧ Codec.unChk [] (Codec.parseSrtNak nak) = [5, 7, 7] ∧
+    s.links.findIdx? (·.core.connId == 11) = some 0 ∧
+    ((@Srtla.Sys.step Int Select.fixScalar s (.uplink 200 11 nak)).1.links.map fun l =>
+      (l.core.cong.nakCount, l.core.window, l.core.inFlight, l.core.keys)) =
+      [(1, 1000, 1, [7]), (1, 19900, 0, [])] := by
+  decide +kernel
+
+/-- The state of the previous example as a definition, its invariant, and the theorems instantiated on it
+(hypotheses met: type 0x8003, conn id 11 is link 0). -/
+def exNakSys : Srtla.Sys.Sys Int :=
+  { links := [{ exSysLink with core := { exA with connected := true } },
+              { exSysLink with core := { exB with connected := true } }],
+    reg := Reg.Reg.new [] [], trk := exTrk }
+
+theorem exNakSys_inv : ∀ l ∈ exNakSys.links, LogInv l.core ∧ 1000 ≤ l.core.window := by
+  intro l hl
+  simp only [exNakSys, List.mem_cons, List.not_mem_nil, or_false] at hl
+  rcases hl with rfl | rfl <;> exact ⟨⟨by decide, by decide, by decide⟩, by decide⟩
+
+example :=
+  @C05_sys_charge_once Int Select.fixScalar exNakSys 200 11
+    [0x80, 0x03, 0, 0, 0, 0, 0, 5, 0, 0, 0, 7, 0, 0, 0, 7] 0 _ exNakSys_inv (by decide) (by decide) rfl
+
+example := C05_nak_list_charge_once exTrk 200 [5, 7, 7] [exA, exB]
+  (by intro c hc
+      simp only [List.mem_cons, List.not_mem_nil, or_false] at hc
+      rcases hc with rfl | rfl
+      · exact ⟨exA_inv, by decide⟩
+      · exact ⟨exB_inv, by decide⟩)
 
 end Srtla.Props.C05
